@@ -9,6 +9,7 @@ import psutil
 from .headers import HeaderwordInfo
 from .conversion_utils import run_conversion_loop
 from .read import SgzReader
+from .version import SeismicZfpVersion
 from .sgzconstants import DISK_BLOCK_BYTES, SEGY_FILE_HEADER_BYTES
 from .seismicfile import SeismicFile, Filetype
 from .utils import (pad,
@@ -367,9 +368,19 @@ class SgzConverter(SgzReader):
                                 buffer[u*self.chunk_bytes + z*self.unit_bytes:
                                        u*self.chunk_bytes + (z+1)*self.unit_bytes]
                         outfile.write(new_block)
-            self.read_variant_headers()
+            self._set_variant_header_padding(True)
+            self.read_variant_headers(include_padding=True)
+            written_offsets = set()
             for k, header_array in self.variant_headers.items():
-                outfile.write(header_array.tobytes())
+                # Header fields which duplicate one another share a stored array, write each array once
+                if self.segy_traceheader_template[k] in written_offsets:
+                    continue
+                written_offsets.add(self.segy_traceheader_template[k])
+                header_bytes = header_array.tobytes()
+                if self.file_version > SeismicZfpVersion("0.2.1"):
+                    # Pad to 512-bytes for page blobs, as in the file being converted
+                    header_bytes += bytes(-len(header_bytes) % 512)
+                outfile.write(header_bytes)
 
 
 class NumpyConverter(object):
